@@ -43,6 +43,7 @@ def check(rep: Report, ctx: Ctx) -> None:
     r86(rep, ctx)
     r87(rep, ctx)
     r88(rep, ctx)
+    r89(rep, ctx)
 
 
 # --------------------------------------------------------------------------
@@ -1068,3 +1069,20 @@ def r88(rep: Report, ctx: Ctx) -> None:
            detail=f"{unparse(a)} <- {[unparse(b.value) for b in binds]}; the "
                   "entry is looked up exactly when the parent's type is a "
                   "key of the map")
+
+
+# --------------------------------------------------------------------------
+def r89(rep: Report, ctx: Ctx) -> None:
+    """(shared with C16)  Each PV event carries the span's end time: the
+    conversion of the nanosecond value to the PV timestamp string must denote
+    that instant (UTC, microsecond kept, fixed-width format)."""
+    rep.rule("R8.9", "the end time is rendered as the instant it denotes "
+             "(ns -> PV timestamp string: R16.3 / R16.4 of C16)", 5)
+    from . import c16 as _c16
+    sub = Report("C16", ctx.index)
+    _c16.check(sub, ctx)
+    for o in sub.obligations:
+        if o.rule in ("R16.3", "R16.4"):
+            o.rule = "R8.9"
+            rep.obligations.append(o)
+    rep.funcs_seen |= sub.funcs_seen
